@@ -91,8 +91,10 @@ EXTRA_DEPTH = {'UnitSquare': 3, 'Circle': 3}  # thorough tier only
 
 CURVES = ('UnitSquare', 'PiSquare', 'LShapeDriver', 'Circle')
 DOMAIN = {'UnitSquare': 'UnitSquare', 'PiSquare': 'PiSquare', 'LShapeDriver': 'LShape', 'Circle': 'Circle',
-          'UnitSquareT': 'UnitSquare', 'CircleT': 'Circle', 'UnitSquareX': 'UnitSquare'}
-CUSTOM_GRIDS = ('UnitSquareT', 'CircleT', 'UnitSquareX')  # non-uniform custom tensor grids (value clauses, data without initial condition)
+          'UnitSquareT': 'UnitSquare', 'CircleT': 'Circle', 'UnitSquareX': 'UnitSquare',
+          # custom closed curves: the Dirichlet / MildSingular data do not depend on the domain name
+          'Stadium': 'Circle', 'BigCircle': 'Circle', 'ThinRect': 'UnitSquare'}
+CUSTOM_GRIDS = ('UnitSquareT', 'CircleT', 'UnitSquareX', 'Stadium', 'BigCircle', 'ThinRect')  # non-uniform custom tensor grids (value clauses, data without initial condition)
 INITIAL_MESH = {'UnitSquare': 'UnitSquareBoundaryRefined', 'PiSquare': 'PiSquareBoundaryRefined',
                 'LShapeDriver': 'LShapeBoundaryRefined'}
 # problem -> (g problem or None, M0 problem or None)
